@@ -172,10 +172,14 @@ let bufname (b : int) : int =
   | Some n -> n
   | None -> let n = Hashtbl.length bufnames in Hashtbl.replace bufnames b n; n
 
+(* tensors handed back to the pool with ReturnTensor (ret:<t>): no longer observed *)
+let dead : (int, unit) Hashtbl.t = Hashtbl.create 8
+
 let obs_model_str dt (st : z store) : string =
   let n = int_of_nat (ntens_model st) in
   let b = Buffer.create 256 in
   for i = 0 to n - 1 do
+    if Hashtbl.mem dead i then Buffer.add_string b (Printf.sprintf " T%d[_|dead]" i) else
     let (((((((sh, l), w), strides), o), buf), off), len) = obs_model st (nat_of_int i) in
     let ws = match w with Some w -> fvals dt w | None -> "P" in
     let bs = if int_of_z len = 0 then "?" else Printf.sprintf "%d+%d" (bufname (int_of_nat buf)) (int_of_z off) in
@@ -189,6 +193,7 @@ let obs_spec_str dt (st : z sstate) : string =
   let n = int_of_nat (ntens_spec st) in
   let b = Buffer.create 256 in
   for i = 0 to n - 1 do
+    if Hashtbl.mem dead i then Buffer.add_string b (Printf.sprintf " T%d[_|dead]" i) else
     let (sh, l) = obs_spec Z0 st (nat_of_int i) in
     Buffer.add_string b (Printf.sprintf " T%d[%s|L:%s]" i (fzs sh) (fvals dt l))
   done;
@@ -270,6 +275,7 @@ let run_prog_gen (kept : bool) dt (prog : string) (impl : string) : outcome =
   let ops = Array.of_list (split_ops prog) in
   let isteps = split_steps impl in
   Hashtbl.reset bufnames;
+  Hashtbl.reset dead;
   let m = ref (empty_store : z store) and s = ref (Some (empty_sstate : z sstate)) in
   let mout = ref [] and sout = ref [] in
   let stop = ref false in
@@ -281,15 +287,23 @@ let run_prog_gen (kept : bool) dt (prog : string) (impl : string) : outcome =
       if not !stop then begin
         let istep = if i < Array.length isteps then isteps.(i) else "" in
         cur_model := !m;
-        let op = parse_op o istep in
+        let is_ret = (fields o).(0) = "ret" in
+        if is_ret then Hashtbl.replace dead (int_of_string (fields o).(1)) ();
+        (* ReturnTensor: the tensor is gone; nothing else may change (MODEL and SPEC: a no-op) *)
+        let op = if is_ret then ZBase (OUT (nat_of_int 0)) (* placeholder, not executed *) else parse_op o istep in
         let before = !m in
-        let (m', r) = zstep_model !m op in
+        let (m', r) = if is_ret then (!m, RUnit) else zstep_model !m op in
         m := m';
-        if kept then begin
+        if kept && not is_ret then begin
           (match op with
            | ZBase (OT (t, axes)) ->
              if axes <> [] then kept_in := !kept_in @ [axes];
              ps := pstep_T !ps t axes (get_t before t) (get_t m' t) (r = RUnit)
+           | ZBase (OSafeT (t, axes)) when axes <> [] && not (Array.length (fields o) > 3 && (fields o).(3) = "api") ->
+             (* SafeT copies the axes (since the fix of F18): the caller's slice is registered and
+                never changes *)
+             kept_in := !kept_in @ [axes];
+             ps := { p_slices = !ps.p_slices @ [axes]; p_tw = !ps.p_tw }
            | ZBase (OUT t) -> ps := pstep_UT !ps t (get_t before t)
            | ZBase (OTranspose t) -> ps := pstep_transpose !ps t (get_t before t)
            | _ -> ())
@@ -306,7 +320,7 @@ let run_prog_gen (kept : bool) dt (prog : string) (impl : string) : outcome =
         (match !s with
          | None -> sout := "?" :: !sout
          | Some st ->
-           (match zstep_spec st op with
+           (match (if is_ret then Some (st, RUnit) else zstep_spec st op) with
             | None -> s := None; sout := "?" :: !sout
             | Some (st', RPanic) ->
               s := None; sout := "panic" :: !sout
